@@ -34,6 +34,13 @@
     UNSUBSCRIBED(req) and ends the membership: so no EVENT of i is
     queued to k after it (until k subscribes again)                     C08_sub_bracket (4)
 
+  the messages ONE session sends to the router are read in the order
+    sent, also across a stay of its handler in the yield retry loop:
+    what it sends meanwhile is appended to `inbox` behind what already
+    waits, and is released in that order (as consecutive `inMsg` tasks,
+    which `drain` runs oldest first) when the loop ends; nothing of
+    another session's waiting messages is reordered                    C08_inbox_order
+
   What is NOT proved here: the bracket as a single statement over arbitrary `Realm.step` histories
   (joins, departures, meta-API calls, dealer traffic, `flush`).  The pieces above cover the three
   broker-facing handlers run by any sessions in any order; that no other part of the realm model
@@ -42,6 +49,7 @@
   trace theorem.
 -/
 import Nexus.L2.Proofs.RealmPublish
+import Nexus.L2.Proofs.DealerRealmRpc
 
 namespace Nexus.C08
 open Nexus.L2 Nexus.L2.Realm Gen.N
@@ -86,6 +94,51 @@ theorem C08_sub_bracket {r : Realm} (hb : BrokerInv r.broker) (k : SessKey) (i :
   · intro s c req hs hk hc hm
     subst hs
     exact (handleUnsubscribe_reply hb s c req i hk hc).1 hm
+
+/-- NOT REORDERED.  Session `k` (attached, `buffered`, not ending) sends `m1`, then `m2`, while its handler is in
+    the yield retry loop; then the loop ends (the turn `x` of callee `k` answers `again = false`).  The task
+    list then is: the tasks from before, what the turn itself queued, then `k`'s waiting messages as
+    `inMsg` tasks — those that already waited, then `m1`, then `m2` — then `k`'s deferred departures.
+    `drain` runs the task list from the front (`Realm.drain_succ_cons`), so `m1` is read before `m2`.
+    The waiting messages of any other session are the same, in the same order, before and after. -/
+theorem C08_inbox_order (r : Realm) (k : SessKey) (s : Session) (m1 m2 : Msg) (x : Retry)
+    (hb : r.busy k = true) (hf : r.clients.find? (fun c => c.key == k) = some s) (hbuf : s.buffered = true)
+    (he : r.ending.contains k = false) (hx : x.callee = k) :
+    let r2 := (r.stepOp (.msg k m1)).stepOp (.msg k m2)
+    r2 = { r with inbox := r.inbox ++ [(k, m1), (k, m2)] } ∧
+    ((retryOut r2 x).again = false →
+      (r2.retryDue x).tasks =
+        r.tasks ++ retryTasks r2 x ++ (inboxOf r k ++ [m1, m2]).map (Task.inMsg k) ++
+          ((r.deferred.filter (fun d => d.1 == k)).map (·.2)).map (Task.leave k) ∧
+      inboxOf (r2.retryDue x) k = [] ∧
+      (∀ k', k' ≠ k → inboxOf (r2.retryDue x) k' = inboxOf r k')) := by
+  intro r2
+  have e1 : r.stepOp (.msg k m1) = { r with inbox := r.inbox ++ [(k, m1)] } := by
+    rw [stepOp_msg]; exact recvMsg_buffered m1 hb hf hbuf he
+  have e2 : r2 = { r with inbox := r.inbox ++ [(k, m1), (k, m2)] } := by
+    show (r.stepOp (.msg k m1)).stepOp (.msg k m2) = _
+    rw [e1, stepOp_msg,
+      recvMsg_buffered (r := { r with inbox := r.inbox ++ [(k, m1)] }) m2 hb hf hbuf he]
+    simp only [List.append_assoc, List.cons_append, List.nil_append]
+  refine ⟨e2, fun ha => ?_⟩
+  obtain ⟨h1, _, _, h4, h5⟩ := retryDue_release r2 x ha
+  have hin : inboxOf r2 k = inboxOf r k ++ [m1, m2] := by
+    rw [e2]
+    unfold inboxOf
+    simp [List.filter_append]
+  have hin' : ∀ k', k' ≠ k → inboxOf r2 k' = inboxOf r k' := by
+    intro k' hk'
+    have : ¬ k = k' := fun e => hk' e.symm
+    rw [e2]
+    unfold inboxOf
+    simp [List.filter_append, this]
+  rw [hx] at h1 h4 h5
+  refine ⟨?_, h4, fun k' hk' => (h5 k' hk').trans (hin' k' hk')⟩
+  rw [h1, hin, e2]
+
+-- `drain` takes the oldest task first
+example (fuel : Nat) (r : Realm) (t : Task) (ts : List Task) (h : r.tasks = t :: ts) :
+    drain (fuel + 1) r = drain fuel (runTask { r with tasks := ts } t) := drain_succ_cons fuel r t ts h
 
 /-- the invariant `BrokerInv r.broker` used above is kept by every broker-facing step -/
 theorem C08_steps_keep_inv {r : Realm} (hb : BrokerInv r.broker) (m : BMsg) : BrokerInv (handleB r m).broker :=
